@@ -230,6 +230,37 @@ func LoadPrelude(dir string) (*Prelude, error) {
 			}
 		}
 	}
+	// A recursive definition whose body reaches a quantifier (directly or through the macros it
+	// uses) is not handled soundly by z3 5.1.0 (DESIGN 13.3): refuse such a prelude outright.
+	hasQ := func(d *PDef) bool {
+		return strings.Contains(d.Text, "(exists ") || strings.Contains(d.Text, "(forall ")
+	}
+	for _, d := range p.Defs {
+		if d.Kind != "define-fun-rec" {
+			continue
+		}
+		seen := map[string]bool{}
+		stack := []*PDef{d}
+		for len(stack) > 0 {
+			x := stack[len(stack)-1]
+			stack = stack[:len(stack)-1]
+			if seen[x.Name] {
+				continue
+			}
+			seen[x.Name] = true
+			if (x.Kind == "define-fun" || x.Kind == "define-fun-rec") && hasQ(x) {
+				return nil, fmt.Errorf("prelude: recursive definition %s reaches a quantifier through %s", d.Name, x.Name)
+			}
+			if x.Kind != "define-fun" && x.Kind != "define-fun-rec" {
+				continue
+			}
+			for _, sy := range x.Syms {
+				if y, ok := p.Defs[sy]; ok && !seen[y.Name] {
+					stack = append(stack, y)
+				}
+			}
+		}
+	}
 	return p, nil
 }
 
